@@ -1045,7 +1045,9 @@ function_number_t define_new_function (char *name, int num_arg, int num_local, u
   funp->children = 0L;
 #endif
 
-  if (exact_types && num_arg)
+  /* after a syntax error inside the body the table of locals may already have been released: the argument
+   * types are then no longer there to be copied (the prototype's entry, if any, stays) */
+  if (exact_types && num_arg && current_number_of_locals >= num_arg)
     {
       *((unsigned short *) mem_block[A_ARGUMENT_INDEX].block + num) = (unsigned short)(mem_block[A_ARGUMENT_TYPES].current_size / sizeof (unsigned short));
       add_to_mem_block (A_ARGUMENT_TYPES, (char *) type_of_locals_ptr, num_arg * sizeof (*type_of_locals_ptr));
